@@ -228,6 +228,21 @@ struct St {
     sample: Vec<J>,
 }
 
+/// "otherwise a byte of the display or attribute memory being fetched": a port that is read many
+/// times in the middle of picture fetches and answers 0xFF every single time is not floating.
+fn never_floats(ctx: &Ctx, is128: bool, c: &Conf, reads: &std::collections::HashMap<u16, u32>, ffs: &std::collections::HashMap<u16, u32>) {
+    for (port, n) in reads.iter() {
+        let f = ffs.get(port).cloned().unwrap_or(0);
+        if *n >= 40 && f == *n {
+            ctx.violation(
+                &format!("floating-bus:{}:constant-ff", if is128 { "128k" } else { "48k" }),
+                &format!("[kempston={} mouse={}] unclaimed port {:04x} was read {} times while the ULA was fetching picture data and returned FF every time (no fetched byte is FF there)", c.kemp, c.mouse, port, n),
+                jobj! {"is128"=>is128,"port"=>*port,"reads"=>*n},
+            );
+        }
+    }
+}
+
 fn conf_name(c: &Conf) -> String {
     format!("{}{}{}{}", if c.is128 { "128k" } else { "48k" }, if c.kemp { "+kemp" } else { "" }, if c.mouse { "+mouse" } else { "" }, if c.ext.0 != 0 { "+ext" } else { "" })
 }
@@ -381,13 +396,37 @@ fn sweep(ctx: &Ctx, c: &Conf, st: &mut St, rng: &mut Rng) {
 }
 
 /// floating bus set oracle
-fn floating(ctx: &Ctx, is128: bool, st: &mut St, rng: &mut Rng, points: usize, all_t: bool) {
-    let mut m = Machine::new(Cfg { sound: false, ..Cfg::of(is128) });
+fn floating(ctx: &Ctx, is128: bool, kemp: bool, st: &mut St, rng: &mut Rng, points: usize, all_t: bool) {
+    // device configuration of this run: every port no enabled device decodes must float
+    let c = Conf { is128, kemp, mouse: rng.chance(1, 3), ext: (0, 0) };
+    let mut cfg = Cfg { sound: false, ..Cfg::of(is128) };
+    cfg.kempston = c.kemp;
+    cfg.mouse = c.mouse;
+    cfg.ay = true;
+    let mut m = Machine::new(cfg);
+    // representatives of every unclaimed decode class + random unclaimed ports
+    let mut unclaimed: Vec<u16> = vec![];
+    for p in [0xFFFFu16, 0x40FF, 0x7FFF, 0x23FF, 0xFEF7, 0x00E3, 0x001F, 0x7F1F, 0x0003, 0xFF1F, 0xFADF, 0xFBDF, 0xFFDF, 0x00DF, 0xFFFF, 0xBFFF, 0x7FFD, 0xBFFD, 0x1FFD, 0xFF3F] {
+        if devices(&c, p, false).is_empty() {
+            unclaimed.push(p);
+        }
+    }
+    while unclaimed.len() < 64 {
+        let p = rng.u16();
+        if devices(&c, p, false).is_empty() {
+            unclaimed.push(p);
+        }
+    }
     let (t0, line, fr) = if is128 { (14362usize, 228usize, 70908usize) } else { (14336, 224, 69888) };
     // display file with random bytes (pokes are enough: the ULA reads memory directly)
-    let screen = rng.bytes(6912);
+    let mut screen = rng.bytes(6912);
+    for b in screen.iter_mut() {
+        if *b == 0xFF {
+            *b = 0x7E;
+        }
+    }
     m.poke_bytes(0x4000, &screen);
-    let ports = [0xFFFFu16, 0x40FF, 0x7FFF, 0x23FF, 0xFEF7, 0x00E3];
+    let ports = unclaimed;
     let mut rf = RegFile::default();
     rf.sp = 0xBF00;
     m.set_regs(&rf);
@@ -402,8 +441,10 @@ fn floating(ctx: &Ctx, is128: bool, st: &mut St, rng: &mut Rng, points: usize, a
         v.extend(t0 + 192 * line - 20..t0 + 193 * line);
         v
     };
+    let mut ff_in_fetch: std::collections::HashMap<u16, u32> = Default::default();
+    let mut reads_in_fetch: std::collections::HashMap<u16, u32> = Default::default();
     for ts in ts {
-        let port = ports[ts % ports.len()];
+        let port = ports[rng.below(ports.len() as u64) as usize];
         m.set_clock(ts);
         let got = m.inp(port);
         st.fb_points += 1;
@@ -432,15 +473,19 @@ fn floating(ctx: &Ctx, is128: bool, st: &mut St, rng: &mut Rng, points: usize, a
         }
         if got != 0xFF {
             st.fb_data_seen += 1;
+        } else if !must_ff && allowed.len() > 8 && !allowed[1..].contains(&0xFF) {
+            *ff_in_fetch.entry(port).or_insert(0u32) += 1;
         }
+        *reads_in_fetch.entry(port).or_insert(0u32) += (!must_ff && allowed.len() > 8) as u32;
         if (must_ff && got != 0xFF) || !allowed.contains(&got) {
             ctx.violation(
                 &format!("floating-bus:{}:{}", if is128 { "128k" } else { "48k" }, if must_ff { "data-outside-fetch" } else { "byte-not-being-fetched" }),
-                &format!("IN {:04x} (unclaimed) started at frame T={} returned {:02x}; {}", port, ts, got, if must_ff { "the ULA is not fetching picture data there, must be FF".to_string() } else { format!("allowed {:02x?}", allowed) }),
-                jobj! {"is128"=>is128,"t"=>ts,"port"=>port,"got"=>got},
+                &format!("[kempston={} mouse={}] IN {:04x} (unclaimed) started at frame T={} returned {:02x}; {}", c.kemp, c.mouse, port, ts, got, if must_ff { "the ULA is not fetching picture data there, must be FF".to_string() } else { format!("allowed {:02x?}", allowed) }),
+                jobj! {"is128"=>is128,"kempston"=>c.kemp,"mouse"=>c.mouse,"t"=>ts,"port"=>port,"got"=>got},
             );
         }
     }
+    never_floats(ctx, is128, &c, &reads_in_fetch, &ff_in_fetch);
 }
 
 pub fn run(ctx: &Ctx) -> Evidence {
@@ -477,13 +522,14 @@ pub fn run(ctx: &Ctx) -> Evidence {
     }
     let nconf = confs.len();
     let fb_all = !ctx.quick();
-    let res = par_map(ctx.jobs(), nconf + 2, |i| {
+    let res = par_map(ctx.jobs(), nconf + 4, |i| {
         let mut st = St::default();
         let mut rng = Rng::fork(ctx.seed ^ 0xC07, 1 + i as u64);
         if i < nconf {
             sweep(ctx, &confs[i], &mut st, &mut rng);
         } else {
-            floating(ctx, i - nconf == 1, &mut st, &mut rng, 20_000, fb_all);
+            let j = i - nconf;
+            floating(ctx, j & 1 == 1, j & 2 == 2, &mut st, &mut rng, 20_000, fb_all);
         }
         st
     });
